@@ -157,6 +157,15 @@ def main():
         text = asm.build()
     except LostAnchor as e:
         return undecided('lost-anchor', str(e))
+    # 1b. the check must not silently shrink: every unit proved on the pinned tree (baseline/<prop>.json) must still be part of the assembly.  Units that are enumerated
+    # mechanically (macro instances, operand families) disappear without a lost anchor when their code is rewritten by hand - that code is then under no contract.
+    try:
+        base_units = set(json.load(open(os.path.join(VERIF, 'baseline', prop + '.json'))).get('units', {}))
+    except Exception:
+        base_units = set()
+    gone = sorted(base_units - set(u.name for u in asm.units))
+    if gone and not os.environ.get('VERIF_WRITE_BASELINE'):
+        return undecided('lost-anchor', 'unit(s) of the proved baseline no longer found in the source: %s (the code that now does their work is under no contract)' % ', '.join(gone[:5]))
     path = os.path.join(OUT, prop + '.rs')
     with open(path, 'w') as f:
         f.write(text)
